@@ -267,6 +267,7 @@ func runC06(c *Ctx, r *Report) {
 	defer c13r6(c, r) // --tail trimming writes only into chunks of its own
 	defer c06r7(c, r)
 	defer c06r8(c, r)
+	defer c11r15(c, r) // a reload restarts the numbering and the header diversion
 	defer c06r9(c, r)  // --tail is honoured by every path that loads records
 	defer c13r10(c, r) // the item builder (ordinals, header diversion) is serialised
 
